@@ -17,3 +17,24 @@ Qed.
 (* VersionIndex.generate_new_output_version: the timestamp rule of Model/Store.v *)
 Lemma gen_version_tie : forall last now, gen_version last now = gen_new_version last now.
 Proof. intros last now. unfold gen_version, gen_new_version. reflexivity. Qed.
+
+(* Executor.run_plan: with the launch gate closed (the launch loop has just ended), the source's loop
+   condition `has_ops or len(inflight) > 0` holds exactly when the model goes on to wait, and the
+   source's `if len(inflight) == 0: continue` is the model's test *)
+Lemma loop_tie : forall jobs s, gate_open jobs s = false ->
+  gen_loop_goes_on (has_ops s) (inflight s) = negb (Nat.eqb (inflight s) 0) /\
+  gen_skip_wait (inflight s) = Nat.eqb (inflight s) 0.
+Proof.
+  intros jobs s Hg. split; [|reflexivity]. unfold gen_loop_goes_on. unfold gate_open in Hg.
+  apply orb_false_iff in Hg as [Hg _]. destruct (inflight s) as [|n] eqn:E.
+  - cbn in *. rewrite andb_true_r in Hg. rewrite Hg. reflexivity.
+  - cbn. apply orb_true_r.
+Qed.
+
+(* a launched operation is given a slot exactly when it is parallelizable and there are at least two slots *)
+Lemma slot_tie : forall par jobs, gen_wants_slot par jobs = par && Nat.ltb 1 jobs.
+Proof. reflexivity. Qed.
+
+(* the planner reports a first-visited task as cached (and does not traverse it) exactly when the model does *)
+Lemma prune_tie : forall again b, gen_prune again b = negb again && negb b.
+Proof. reflexivity. Qed.
